@@ -2226,6 +2226,11 @@ func (h *fsmHandler) loop(ctx context.Context, wg *sync.WaitGroup) {
 		oldState = nextState
 	}
 
+	if fsm.outgoingConnMgr != nil {
+		// also closes a connection the manager handed over after the session
+		// had gone on over the incoming one, which no state picked up
+		fsm.outgoingConnMgr.stop()
+	}
 	select {
 	case conn := <-fsm.connCh:
 		conn.Close()
